@@ -41,6 +41,8 @@ proof fn ax_ops(a: f32, b: f32)
 /// AX-order: <= is reflexive on numbers and transitive
 proof fn ax_le_refl(a: f32) ensures !fnan(a) ==> fle(a, a) { admit(); }
 proof fn ax_le_trans(a: f32, b: f32, c: f32) ensures fle(a, b) && fle(b, c) ==> fle(a, c) { admit(); }
+proof fn ax_lt_le_trans(a: f32, b: f32, c: f32) ensures flt(a, b) && fle(b, c) ==> flt(a, c) { admit(); }
+proof fn ax_le_lt_trans(a: f32, b: f32, c: f32) ensures fle(a, b) && flt(b, c) ==> flt(a, c) { admit(); }
 /// AX-total: any two numbers are comparable
 proof fn ax_total(a: f32, b: f32) ensures (!fnan(a) && !fnan(b)) ==> (fle(a, b) || flt(b, a)) { admit(); }
 /// AX-nan: NaN propagates through + - * and negation; 0.0 is a number
@@ -63,6 +65,44 @@ proof fn ax_mul_mono(a: f32, b: f32, k: f32)
 { admit(); }
 /// AX-neg: negation reverses the order
 proof fn ax_neg_mono(a: f32, b: f32) ensures fle(a, b) ==> fle(fneg_spec(b), fneg_spec(a)) { admit(); }
+
+/// R-method: f32 library methods as uninterpreted functions (one tag per method)
+pub uninterp spec fn fun1(tag: int, a: f32) -> f32;
+pub open spec fn T_EXP() -> int { 1 }
+pub open spec fn T_ATAN() -> int { 2 }
+pub open spec fn T_FLOOR() -> int { 3 }
+pub open spec fn T_CEIL() -> int { 4 }
+pub open spec fn T_ROUND() -> int { 5 }
+pub open spec fn T_SQRT() -> int { 6 }
+pub open spec fn T_LN() -> int { 7 }
+pub assume_specification [f32::exp] (x: f32) -> (r: f32) ensures r == fun1(T_EXP(), x);
+pub assume_specification [f32::atan] (x: f32) -> (r: f32) ensures r == fun1(T_ATAN(), x);
+pub assume_specification [f32::floor] (x: f32) -> (r: f32) ensures r == fun1(T_FLOOR(), x);
+pub assume_specification [f32::ceil] (x: f32) -> (r: f32) ensures r == fun1(T_CEIL(), x);
+pub assume_specification [f32::round] (x: f32) -> (r: f32) ensures r == fun1(T_ROUND(), x);
+pub assume_specification [f32::sqrt] (x: f32) -> (r: f32) ensures r == fun1(T_SQRT(), x);
+pub assume_specification [f32::ln] (x: f32) -> (r: f32) ensures r == fun1(T_LN(), x);
+/// AX-fun-mono: exp, atan, floor, ceil, round, sqrt, ln (as computed by the platform libm / the hardware) are monotone
+/// wherever both results are numbers; this is an assumption about libm for exp/atan/ln, an IEEE fact for the others
+proof fn ax_fun_mono(tag: int, a: f32, b: f32)
+    ensures (1 <= tag <= 7 && fle(a, b) && !fnan(fun1(tag, a)) && !fnan(fun1(tag, b))) ==> fle(fun1(tag, a), fun1(tag, b))
+{ admit(); }
+/// AX-fun-nan: NaN in, NaN out; exp/atan/floor/ceil/round of a number is a number; sqrt is NaN exactly below zero,
+/// ln is a number for every positive argument
+proof fn ax_fun_nan(tag: int, a: f32)
+    ensures
+        fnan(a) ==> fnan(fun1(tag, a)),
+        (1 <= tag <= 5 && !fnan(a)) ==> !fnan(fun1(tag, a)),
+        (tag == 6 && !fnan(a) && !flt(a, 0.0f32)) ==> !fnan(fun1(tag, a)),
+        (tag == 7 && flt(0.0f32, a)) ==> !fnan(fun1(tag, a)),
+{ admit(); }
+/// AX-recip: division is total; 1/x is a number for every number x (possibly infinite) and antitone on each side of zero
+proof fn ax_recip(a: f32, b: f32)
+    ensures
+        <f32 as DivSpec<f32>>::obeys_div_spec(), <f32 as DivSpec<f32>>::div_req(1.0f32, a), <f32 as DivSpec<f32>>::div_req(1.0f32, b),
+        fnan(1.0f32.div_spec(a)) == fnan(a),
+        (fle(a, b) && (flt(0.0f32, a) || flt(b, 0.0f32))) ==> fle(1.0f32.div_spec(b), 1.0f32.div_spec(a)),
+{ admit(); }
 
 // =================== specification of intervals ===================
 pub open spec fn valid(i: Interval) -> bool { fle(i.lower, i.upper) || (fnan(i.lower) && fnan(i.upper)) }
@@ -112,6 +152,9 @@ SPECS = {
 """),
 }
 
+EXTRA_SPECS = {'Interval::exp': ('r: Self', '\n        requires valid(self)\n        ensures valid(r),\n            forall|x: f32| mem(x, self) && !nan_iv(r) && !fnan(#[trigger] fun1(T_EXP(), x)) ==> mem(fun1(T_EXP(), x), r)\n'), 'Interval::atan': ('r: Self', '\n        requires valid(self)\n        ensures valid(r),\n            forall|x: f32| mem(x, self) && !nan_iv(r) && !fnan(#[trigger] fun1(T_ATAN(), x)) ==> mem(fun1(T_ATAN(), x), r)\n'), 'Interval::sqrt': ('r: Self', '\n        requires valid(self)\n        ensures valid(r),\n            forall|x: f32| mem(x, self) && !nan_iv(r) && !fnan(#[trigger] fun1(T_SQRT(), x)) ==> mem(fun1(T_SQRT(), x), r)\n'), 'Interval::ln': ('r: Self', '\n        requires valid(self)\n        ensures valid(r),\n            forall|x: f32| mem(x, self) && !nan_iv(r) && !fnan(#[trigger] fun1(T_LN(), x)) ==> mem(fun1(T_LN(), x), r)\n'), 'Interval::floor': ('r: Self', '\n        requires valid(*self)\n        ensures valid(r),\n            forall|x: f32| mem(x, *self) && !nan_iv(r) && !fnan(#[trigger] fun1(T_FLOOR(), x)) ==> mem(fun1(T_FLOOR(), x), r)\n'), 'Interval::ceil': ('r: Self', '\n        requires valid(*self)\n        ensures valid(r),\n            forall|x: f32| mem(x, *self) && !nan_iv(r) && !fnan(#[trigger] fun1(T_CEIL(), x)) ==> mem(fun1(T_CEIL(), x), r)\n'), 'Interval::round': ('r: Self', '\n        requires valid(*self)\n        ensures valid(r),\n            forall|x: f32| mem(x, *self) && !nan_iv(r) && !fnan(#[trigger] fun1(T_ROUND(), x)) ==> mem(fun1(T_ROUND(), x), r)\n'), 'Interval::recip': ('r: Self', '\n        requires valid(self)\n        ensures valid(r),\n            forall|x: f32| mem(x, self) && !nan_iv(r) ==> mem(#[trigger] 1.0f32.div_spec(x), r)\n')}
+SPECS.update(EXTRA_SPECS)
+
 PROOFS = [
  ('Interval::new', '$START', 0, False, "        proof { ax_ops(upper, lower); }"),
  ('Interval::add', '$START', 0, False, """        proof {
@@ -160,6 +203,8 @@ PROOFS = [
         }"""),
 ]
 
+PROOFS += [('Interval::exp', '$START', 0, False, '        proof {\n            ax_ops(self.lower, self.upper); ax_ops(self.lower, 0.0f32); ax_ops(0.0f32, self.lower); ax_ops(self.upper, 0.0f32); ax_ops(0.0f32, self.upper);\n            ax_nan_prop(self.lower, self.upper);\n            ax_fun_nan(T_EXP(), self.lower); ax_fun_nan(T_EXP(), self.upper); ax_fun_mono(T_EXP(), self.lower, self.upper);\n            ax_total(0.0f32, self.lower); ax_total(self.lower, 0.0f32); ax_le_trans(0.0f32, self.lower, self.upper);\n            ax_lt_le_trans(0.0f32, self.lower, self.upper);\n        }'), ('Interval::exp', '$TAILPROOF', 0, False, '        proof {\n            assert forall|x: f32| mem(x, self) && !nan_iv(ret_) && !fnan(#[trigger] fun1(T_EXP(), x)) implies mem(fun1(T_EXP(), x), ret_) by {\n                ax_fun_mono(T_EXP(), self.lower, x); ax_fun_mono(T_EXP(), x, self.upper);\n                ax_fun_nan(T_EXP(), x);\n            }\n        }'), ('Interval::atan', '$START', 0, False, '        proof {\n            ax_ops(self.lower, self.upper); ax_ops(self.lower, 0.0f32); ax_ops(0.0f32, self.lower); ax_ops(self.upper, 0.0f32); ax_ops(0.0f32, self.upper);\n            ax_nan_prop(self.lower, self.upper);\n            ax_fun_nan(T_ATAN(), self.lower); ax_fun_nan(T_ATAN(), self.upper); ax_fun_mono(T_ATAN(), self.lower, self.upper);\n            ax_total(0.0f32, self.lower); ax_total(self.lower, 0.0f32); ax_le_trans(0.0f32, self.lower, self.upper);\n            ax_lt_le_trans(0.0f32, self.lower, self.upper);\n        }'), ('Interval::atan', '$TAILPROOF', 0, False, '        proof {\n            assert forall|x: f32| mem(x, self) && !nan_iv(ret_) && !fnan(#[trigger] fun1(T_ATAN(), x)) implies mem(fun1(T_ATAN(), x), ret_) by {\n                ax_fun_mono(T_ATAN(), self.lower, x); ax_fun_mono(T_ATAN(), x, self.upper);\n                ax_fun_nan(T_ATAN(), x);\n            }\n        }'), ('Interval::sqrt', '$START', 0, False, '        proof {\n            ax_ops(self.lower, self.upper); ax_ops(self.lower, 0.0f32); ax_ops(0.0f32, self.lower); ax_ops(self.upper, 0.0f32); ax_ops(0.0f32, self.upper);\n            ax_nan_prop(self.lower, self.upper);\n            ax_fun_nan(T_SQRT(), self.lower); ax_fun_nan(T_SQRT(), self.upper); ax_fun_mono(T_SQRT(), self.lower, self.upper);\n            ax_total(0.0f32, self.lower); ax_total(self.lower, 0.0f32); ax_le_trans(0.0f32, self.lower, self.upper);\n            ax_lt_le_trans(0.0f32, self.lower, self.upper);\n        }'), ('Interval::sqrt', '$TAILPROOF', 0, False, '        proof {\n            assert forall|x: f32| mem(x, self) && !nan_iv(ret_) && !fnan(#[trigger] fun1(T_SQRT(), x)) implies mem(fun1(T_SQRT(), x), ret_) by {\n                ax_fun_mono(T_SQRT(), self.lower, x); ax_fun_mono(T_SQRT(), x, self.upper);\n                ax_fun_nan(T_SQRT(), x);\n            }\n        }'), ('Interval::ln', '$START', 0, False, '        proof {\n            ax_ops(self.lower, self.upper); ax_ops(self.lower, 0.0f32); ax_ops(0.0f32, self.lower); ax_ops(self.upper, 0.0f32); ax_ops(0.0f32, self.upper);\n            ax_nan_prop(self.lower, self.upper);\n            ax_fun_nan(T_LN(), self.lower); ax_fun_nan(T_LN(), self.upper); ax_fun_mono(T_LN(), self.lower, self.upper);\n            ax_total(0.0f32, self.lower); ax_total(self.lower, 0.0f32); ax_le_trans(0.0f32, self.lower, self.upper);\n            ax_lt_le_trans(0.0f32, self.lower, self.upper);\n        }'), ('Interval::ln', '$TAILPROOF', 0, False, '        proof {\n            assert forall|x: f32| mem(x, self) && !nan_iv(ret_) && !fnan(#[trigger] fun1(T_LN(), x)) implies mem(fun1(T_LN(), x), ret_) by {\n                ax_fun_mono(T_LN(), self.lower, x); ax_fun_mono(T_LN(), x, self.upper);\n                ax_fun_nan(T_LN(), x);\n            }\n        }'), ('Interval::floor', '$START', 0, False, '        proof {\n            ax_ops(self.lower, self.upper); ax_ops(self.lower, 0.0f32); ax_ops(0.0f32, self.lower); ax_ops(self.upper, 0.0f32); ax_ops(0.0f32, self.upper);\n            ax_nan_prop(self.lower, self.upper);\n            ax_fun_nan(T_FLOOR(), self.lower); ax_fun_nan(T_FLOOR(), self.upper); ax_fun_mono(T_FLOOR(), self.lower, self.upper);\n            ax_total(0.0f32, self.lower); ax_total(self.lower, 0.0f32); ax_le_trans(0.0f32, self.lower, self.upper);\n            ax_lt_le_trans(0.0f32, self.lower, self.upper);\n        }'), ('Interval::floor', '$TAILPROOF', 0, False, '        proof {\n            assert forall|x: f32| mem(x, *self) && !nan_iv(ret_) && !fnan(#[trigger] fun1(T_FLOOR(), x)) implies mem(fun1(T_FLOOR(), x), ret_) by {\n                ax_fun_mono(T_FLOOR(), self.lower, x); ax_fun_mono(T_FLOOR(), x, self.upper);\n                ax_fun_nan(T_FLOOR(), x);\n            }\n        }'), ('Interval::ceil', '$START', 0, False, '        proof {\n            ax_ops(self.lower, self.upper); ax_ops(self.lower, 0.0f32); ax_ops(0.0f32, self.lower); ax_ops(self.upper, 0.0f32); ax_ops(0.0f32, self.upper);\n            ax_nan_prop(self.lower, self.upper);\n            ax_fun_nan(T_CEIL(), self.lower); ax_fun_nan(T_CEIL(), self.upper); ax_fun_mono(T_CEIL(), self.lower, self.upper);\n            ax_total(0.0f32, self.lower); ax_total(self.lower, 0.0f32); ax_le_trans(0.0f32, self.lower, self.upper);\n            ax_lt_le_trans(0.0f32, self.lower, self.upper);\n        }'), ('Interval::ceil', '$TAILPROOF', 0, False, '        proof {\n            assert forall|x: f32| mem(x, *self) && !nan_iv(ret_) && !fnan(#[trigger] fun1(T_CEIL(), x)) implies mem(fun1(T_CEIL(), x), ret_) by {\n                ax_fun_mono(T_CEIL(), self.lower, x); ax_fun_mono(T_CEIL(), x, self.upper);\n                ax_fun_nan(T_CEIL(), x);\n            }\n        }'), ('Interval::round', '$START', 0, False, '        proof {\n            ax_ops(self.lower, self.upper); ax_ops(self.lower, 0.0f32); ax_ops(0.0f32, self.lower); ax_ops(self.upper, 0.0f32); ax_ops(0.0f32, self.upper);\n            ax_nan_prop(self.lower, self.upper);\n            ax_fun_nan(T_ROUND(), self.lower); ax_fun_nan(T_ROUND(), self.upper); ax_fun_mono(T_ROUND(), self.lower, self.upper);\n            ax_total(0.0f32, self.lower); ax_total(self.lower, 0.0f32); ax_le_trans(0.0f32, self.lower, self.upper);\n            ax_lt_le_trans(0.0f32, self.lower, self.upper);\n        }'), ('Interval::round', '$TAILPROOF', 0, False, '        proof {\n            assert forall|x: f32| mem(x, *self) && !nan_iv(ret_) && !fnan(#[trigger] fun1(T_ROUND(), x)) implies mem(fun1(T_ROUND(), x), ret_) by {\n                ax_fun_mono(T_ROUND(), self.lower, x); ax_fun_mono(T_ROUND(), x, self.upper);\n                ax_fun_nan(T_ROUND(), x);\n            }\n        }'), ('Interval::recip', '$START', 0, False, '        proof {\n            ax_ops(self.lower, self.upper); ax_ops(self.lower, 0.0f32); ax_ops(0.0f32, self.lower); ax_ops(self.upper, 0.0f32); ax_ops(0.0f32, self.upper);\n            ax_nan_prop(self.lower, self.upper);\n            ax_recip(self.lower, self.upper);\n        }'), ('Interval::recip', '$TAILPROOF', 0, False, '        proof {\n            assert forall|x: f32| mem(x, self) && !nan_iv(ret_) implies mem(#[trigger] 1.0f32.div_spec(x), ret_) by {\n                ax_ops(x, 0.0f32); ax_ops(0.0f32, x);\n                ax_lt_le_trans(0.0f32, self.lower, x); ax_le_lt_trans(x, self.upper, 0.0f32);\n                ax_recip(self.lower, x); ax_recip(x, self.upper);\n            }\n        }')]
+
 
 def inherent_from_trait(src, header_re, fn_name, new_name, trace):
     """R-traitfn: `impl Trait<..> for Interval { type Output = Self; fn f(..) {..} }` -> the method as an inherent fn
@@ -187,7 +232,7 @@ def build(repo, trace):
     st = st.replace('struct Interval {', 'pub struct Interval {').replace('    lower: f32,', '    pub lower: f32,').replace('    upper: f32,', '    pub upper: f32,')
     a, b = rsx.impl_block(src, r'^impl Interval\b', 'impl Interval')
     fns = []
-    for name in ['new', 'new_or_nan', 'lower', 'upper', 'has_nan']:
+    for name in ['new', 'new_or_nan', 'lower', 'upper', 'has_nan', 'exp', 'atan', 'sqrt', 'ln', 'recip', 'floor', 'ceil', 'round']:
         i, j, k = rsx.find_fn(src, name, a, b)
         fns.append(src[rsx.line_start(src, i):k])
         trace.items.append((SRC, 'Interval::' + name))
@@ -197,8 +242,8 @@ def build(repo, trace):
     fns.append(inherent_from_trait(src, r'^impl std::ops::Neg for Interval', 'neg', 'neg', trace))
     for w in ('Add<Interval>::add', 'Sub<Interval>::sub', 'Mul<f32>::mul (as mul_f32)', 'Neg::neg'):
         trace.items.append((SRC, 'impl ' + w))
-    trace.drop('all other Interval functions (abs, square, sin, cos, tan, asin, acos, atan, exp, ln, sqrt, recip, min/max/and/or_choice, '
-               'rem_euclid, floor/ceil/round, not, atan2, mix, rand, midpoint, split, lerp, width, Mul<Interval>, Div, From impls): '
+    trace.drop('all other Interval functions (abs, square, sin, cos, tan, asin, acos, min/max/and/or_choice, '
+               'rem_euclid, not, atan2, mix, rand, midpoint, split, lerp, width, Mul<Interval>, Div, From impls): '
                'select ops are decided by Kani, the rest by the bounded contracts interp_interval / total')
     body = 'impl Interval {\n' + '\n\n'.join(fns) + '\n}\n'
     # R-nanconst / R-neg
@@ -222,11 +267,15 @@ def build(repo, trace):
     name_tail('sub', r'\n        (Interval::new_or_nan\([^;]*?\))\n    \}$')
     name_tail('neg', r'\n        (Interval::new\([^;]*?\))\n    \}$')
     name_tail('mul_f32', r'\n        (if self\.has_nan\(\).*\n        \})\n    \}$')
+    for fn in ('exp', 'atan', 'floor', 'ceil', 'round'):
+        name_tail(fn, r'\n        (Interval::new\([^;]*?\))\n    \}$')
+    for fn in ('sqrt', 'ln', 'recip'):
+        name_tail(fn, r'\n        (if self\.(?:lower|upper) .*\n        \})\n    \}$')
     text = ('use vstd::prelude::*;\nuse vstd::std_specs::ops::*;\nuse vstd::std_specs::cmp::*;\nuse core::cmp::Ordering;\nverus! {\n'
             + st + '\n\n' + body + '\n} // verus!\nfn main() {}\n')
     inj = Injector(text, trace)
     for qual, anchor, occ, before, proof in PROOFS:
-        if anchor in ('$TAILCALLNAME', '$TAILIFNAME'):
+        if anchor in ('$TAILCALLNAME', '$TAILIFNAME', '$TAILPROOF'):
             fn = qual.split('::')[1]
             inj.replace_once('        /*@tail:%s*/' % fn, proof, 'R-tail-proof')
         else:
@@ -234,6 +283,6 @@ def build(repo, trace):
     for qual, (ret, stext) in SPECS.items():
         inj.spec(qual, ret, stext)
     inj.append_items(AXIOMS)
-    fnames = ['new', 'new_or_nan', 'lower', 'upper', 'has_nan', 'add', 'sub', 'mul_f32', 'neg']
+    fnames = ['new', 'new_or_nan', 'lower', 'upper', 'has_nan', 'add', 'sub', 'mul_f32', 'neg', 'exp', 'atan', 'sqrt', 'ln', 'recip', 'floor', 'ceil', 'round']
     obls = [Obligation('interval::Interval::' + f, 'interval', 'Interval::' + f, props=PROPS) for f in fnames]
-    return {'texts': {'base': inj.s}, 'obligations': obls, 'canary_fns': ['Interval::' + f for f in ('new', 'new_or_nan', 'add', 'sub', 'mul_f32', 'neg')]}
+    return {'texts': {'base': inj.s}, 'obligations': obls, 'canary_fns': ['Interval::' + f for f in ('new', 'new_or_nan', 'add', 'sub', 'mul_f32', 'neg', 'exp', 'sqrt', 'ln', 'recip', 'floor')]}
